@@ -114,14 +114,16 @@ def gen(seed, tier="quick"):
         scn["adaptive"] = {"window_us": w, "target_success": r.choice([1.0, 0.9, 0.5, 0.1, 0.01]), "min_m": r.choice([1.0, 1.0, 1.5, 2.0]),
                            "span": r.choice([0.0, 1.0, 4.0, 9.0])}
         ops = []
-        for _ in range(r.randint(1, 60)):
+        n_ops = r.choice([r.randint(1, 60), r.randint(1, 60), r.randint(1, 60), r.randint(1100, 3000)])
+        burst = n_ops > 1000     # a traffic burst: thousands of outcomes inside one window
+        for _ in range(n_ops):
             z = r.random()
-            if z < 0.3:
+            if z < (0.6 if burst else 0.3):
                 ops.append(["fail"])
-            elif z < 0.5:
+            elif z < (0.8 if burst else 0.5):
                 ops.append(["ok"])
-            elif z < 0.7:
-                ops.append(["adv", r.choice([0, 1000, w, w - 1, w + 1, w // 2, w // 3])])
+            elif z < (0.85 if burst else 0.7):
+                ops.append(["adv", r.choice([0, 1, 1000]) if burst else r.choice([0, 1000, w, w - 1, w + 1, w // 2, w // 3])])
             else:
                 ops.append(["call", r.choice([0, 1, 250_000, 1_000_000, 30_000_000, r.randrange(0, 10**7)])])
         scn["ops"] = ops
